@@ -15,7 +15,8 @@ TRUSTED = T01 + ["pool.imap order and exception propagation (assumed)"]
 def _tasks0(tier):
     from props.taste_coords import coord_tasks
     from props.taste_parents import parent_tasks
-    return worker_tasks("C03", ["complete"]) + dispatch_tasks("C03") + coord_tasks("C03") + parent_tasks("C03")
+    from props.header_tasks import _ht
+    return worker_tasks("C03", ["complete"]) + dispatch_tasks("C03") + coord_tasks("C03") + parent_tasks("C03") + _ht("C03", tier)
 
 
 def canaries(tier):
@@ -37,7 +38,8 @@ def scenarios(tier, seed):
     n = 2 if tier == "quick" else 8
     return [{"kind": "accept", "seed": seed * 1000 + 300 + i, "ndims": 3 if i % 2 == 0 else 2, "nf": [3, 2, 5][i % 3],
              "nlevels": [2, 3, 1][i % 3], "nfiles": [3, 2, 1, 4][i % 4], "layout": ["shuffled", "roundrobin"][i % 2],
-             "box_sizes": [8, 16] if i % 3 == 2 else None, "all_limits": tier != "quick"} for i in range(n)] + \
+             "box_sizes": [8, 16] if i % 3 == 2 else None, "all_limits": tier != "quick",
+             "version": [None, "NavierStokes-V1.1", "HyperCLaw-V1.1", "MyCode 2.0"][i % 4]} for i in range(n)] + \
         [{"kind": "accept", "seed": seed * 1000 + 350, "ndims": 3, "nf": 2, "nlevels": 2, "nfiles": 2, "layout": "shuffled",
           "box_sizes": [8, 16], "n0": [32, 16, 16], "all_limits": False},      # boxes of different shapes sharing a binary file
          {"kind": "accept", "seed": seed * 1000 + 351, "ndims": 3, "nf": 2, "nlevels": 2, "nfiles": 2, "layout": "shuffled",
